@@ -4,6 +4,7 @@ package main
 
 import (
 	"fmt"
+	"os"
 	"regexp"
 	"strconv"
 	"strings"
@@ -175,6 +176,9 @@ func calibrate() {
 		}
 	}
 	if repeatInitLine == 0 || repeatCheckLine == 0 || repeatInitLine == repeatCheckLine {
-		panic(fmt.Sprintf("calibration failed: %d %d", repeatInitLine, repeatCheckLine))
+		// Repeat no longer has two distinguishable failOnError call sites (a refactoring can merge them): the two
+		// model sites SRepeatInit / SRepeatCheck are then both reported as the check site; the correspondence will
+		// say so, the oracles keep running
+		fmt.Fprintf(os.Stderr, "calibration: Repeat's failOnError call sites not distinguishable (%d %d)\n", repeatInitLine, repeatCheckLine)
 	}
 }
